@@ -140,6 +140,19 @@ def worlds(tier):
                             yield w, dict(tag="PS")
                             if all(t == "SNV" for t, _ in tv) and margin == 15:
                                 yield w, dict(tag="PS", reference=False)
+    # extended CIGAR (= / X operators) and uneven coverage of the two haplotypes (two reads of one, one of the other)
+    for tv in [(("SNV", 1), ("INS", 2), ("SNV", 1)), (("INS", 1), ("SNV", 1), ("DEL", 2)), (("SNV", 1), ("MNP", 2), ("INS", 3))]:
+        k = 3
+        kinds = read_kinds(k)
+        for hp in [(0, 0, 0), (0, 1, 0), (0, 0, 1), (0, 1, 1)]:
+            for more in (0, 1):
+                for margin in (3, 15):
+                    wid += 1
+                    hk = [(kind, h) for kind in kinds[:3] for h in (0, 1)] + [(kind, more) for kind in kinds[:3]]
+                    w = make_world(wid, tv, [hp], hk, margin, depth=1)
+                    for r in w["reads"]:
+                        r["style"] = "=X"
+                    yield w, dict(tag="PS")
     # several alignment files for one sample; read names are unique within a file only
     for tv in [(("SNV", 1),) * 4, (("SNV", 1), ("INS", 1), ("SNV", 1), ("DEL", 1))]:
         k = 4
